@@ -37,6 +37,7 @@ type Case struct {
 	Fixed    []int    `json:"fixed"` // [] or [w,h]
 	Smap     [][]int  `json:"smap"`  // [] or per node [present,w,h] (optionally ,x,y)
 	Virt     int      `json:"virt"`
+	Nsd      int      `json:"nsd"` // NodeSpacing = ns / nsd (nsd a power of two <= 64; 0 or 1: ns itself)
 	Oo       int      `json:"oo"`  // 1: the option list is passed in reverse order
 	Bkl      int      `json:"bkl"` // 1..4: WithBrandesKoepfLayout(bkl-1) although the positioner is not Brandes-Koepf
 	Thor     int      `json:"thor"` // <0: library default
@@ -188,7 +189,11 @@ func buildOptions(c *Case, rec *recorder) (graph.EdgeSlice, map[string]graph.Siz
 		harnessErr("case %d: unknown p5 %q", c.Case, c.P5)
 	}
 	if c.Ns >= 0 {
-		opts = append(opts, autog.WithNodeSpacing(scale(c.Ns, c.Sc)))
+		ns := scale(c.Ns, c.Sc)
+		if c.Nsd > 1 {
+			ns /= float64(c.Nsd) // a power of two: NodeSpacing 0.25, 0.5, 1.75 ... stay exact on the 1/64 grid
+		}
+		opts = append(opts, autog.WithNodeSpacing(ns))
 	}
 	if c.Ls >= 0 {
 		opts = append(opts, autog.WithLayerSpacing(scale(c.Ls, c.Sc)))
